@@ -150,3 +150,85 @@ def ctx_block(env, nid):
     """`with ControlStatusCtx(status): f(…)` written in user code (convertible)."""
     with env.new_ctx(nid):
         env.inner(nid)(env, nid)
+
+
+# ---- bodies containing nested functions: the converter emits a function scope for every nested `def` / lambda too, with
+# ---- the options of a *recursive* conversion (user_requested=False); only the outermost scope carries the requested ones.
+
+def body_localdef(env, nid):
+    def visit(i, f, c):                      # a local helper: observes inside the nested function
+        env.step(nid, i)
+        env.obs(nid, 'pre', i)
+        env.drive(c, f(env, c))
+        env.obs(nid, 'post', i)
+    env.obs(nid, 'in')
+    try:
+        for i, f, c in env.kids(nid):
+            visit(i, f, c)
+        env.last(nid)
+    except Boom:
+        env.handle(nid)
+    except AssertionError:
+        env.handle_refusal(nid)
+    env.obs(nid, 'out')
+
+
+def body_locallambda(env, nid):
+    before = lambda i: env.obs(nid, 'pre', i)
+    after = lambda i: env.obs(nid, 'post', i)
+    env.obs(nid, 'in')
+    try:
+        for i, f, c in env.kids(nid):
+            env.step(nid, i)
+            before(i)
+            env.drive(c, f(env, c))
+            after(i)
+        env.last(nid)
+    except Boom:
+        env.handle(nid)
+    except AssertionError:
+        env.handle_refusal(nid)
+    env.obs(nid, 'out')
+
+
+def body_twolevel(env, nid):
+    def visit(i, f, c):
+        def before():
+            env.step(nid, i)
+            env.obs(nid, 'pre', i)
+
+        def after():
+            env.obs(nid, 'post', i)
+        before()
+        env.drive(c, f(env, c))
+        after()
+    env.obs(nid, 'in')
+    try:
+        for i, f, c in env.kids(nid):
+            visit(i, f, c)
+        env.last(nid)
+    except Boom:
+        env.handle(nid)
+    except AssertionError:
+        env.handle_refusal(nid)
+    env.obs(nid, 'out')
+
+
+def body_localclass(env, nid):
+    class Visitor(object):
+        def visit(self, i, f, c):
+            env.step(nid, i)
+            env.obs(nid, 'pre', i)
+            env.drive(c, f(env, c))
+            env.obs(nid, 'post', i)
+    env.obs(nid, 'in')
+    try:
+        v = Visitor()
+        for i, f, c in env.kids(nid):
+            v.visit(i, f, c)
+        env.last(nid)
+    except Boom:
+        env.handle(nid)
+    except AssertionError:
+        env.handle_refusal(nid)
+    env.obs(nid, 'out')
